@@ -22,10 +22,10 @@
   `C15_tables_coded_first`.
 
   Hypotheses beyond the property's wording:
-  * the unchanged tree VIOLATES the contract at the places listed in `knownElementOffences`,
-    `knownUnfetched`, `knownValueOffences`; each is replayed on the real pair by the harness
-    (PENDING_FINDINGS).  The full statements are kept as `C15_*_full : Prop`, refuted by
-    `C15_*_counterexample`, and the `_partial` theorems say that these are the ONLY exceptions.
+  * the unchanged tree VIOLATES the contract at the places listed in `knownElementOffences` and
+    `knownValueOffences`; each is replayed on the real pair by the harness (PENDING_FINDINGS).  The full
+    statements are kept as `C15_*_full : Prop`, refuted by `C15_*_counterexample`, and the `_partial`
+    theorems say that these are the ONLY exceptions.  The attribute clause (`C15_attributes`) holds in full.
   * `writerOnlyOffences`, `writerOnlyValueOffences`: combinations girwriter.py could write but no scanner
     path produces (fields of an interface; transfer-ownership="container" on an instance parameter); the
     harness checks on every produced GIR that they do not occur.
@@ -60,8 +60,8 @@ def irregularEnds : List (List String × List String) := [
   (["PASSTHROUGH"], ["depth-1", "if-depth-0", "switch:prev"]),
   (["default"], [])]
 
-/-- state_switch, introspectable_prelude, end_type, state_switch_end_struct_or_union and the
-    PASSTHROUGH branch of start_element_handler, statement by statement, as mirrored by
+/-- state_switch, introspectable_prelude, end_type, state_switch_end_struct_or_union, the hand-written
+    introspectable test of start_member and the PASSTHROUGH branch of start_element_handler, statement by statement, as mirrored by
     `stateSwitch`, `startEv`, `endEv` -/
 def expectedHelpers : List (String × List String) := [
   ("state_switch", ["g_assert (ctx->state != newstate)", "ctx->prev_state = ctx->state", "ctx->state = newstate",
@@ -82,6 +82,8 @@ def expectedHelpers : List (String × List String) := [
     "g_markup_parse_context_get_position (context, &line_number, &char_number)",
     "g_set_error (error, G_MARKUP_ERROR, G_MARKUP_ERROR_INVALID_CONTENT, \"Unexpected end tag '%s' on line %d char %d\", element_name, line_number, char_number)",
     "return FALSE", "return TRUE"]),
+  ("start_member:own-introspectable-test", ["introspectable = find_attribute (\"introspectable\", attribute_names, attribute_values)",
+    "if (introspectable && atoi (introspectable) == 0)", "state_switch (ctx, STATE_PASSTHROUGH)", "return TRUE"]),
   ("start_element_handler:passthrough", ["ctx->unknown_depth += 1", "return"])]
 
 /-- The hand-written half of the model is the source's: the irregular rows of end_element_handler
@@ -132,11 +134,9 @@ def contexts : List (Visit String) := [
 
 /-- The offences of the UNCHANGED tree (each replayed on the real scanner/compiler pair, see
     PENDING_FINDINGS in harness/c15.py):
-    * <alias><attribute/>: no node exists for an alias, start_attribute refuses → warning;
     * <record> directly in <record>, <union> directly in <union>: state_switch to the current state → abort;
     * <field><callback/> in a <union>: start_function knows embedded callbacks only in class/struct fields → warning, then fatal. -/
 def knownElementOffences : List (Offence String) := [
-  ⟨"ALIAS", "alias", "attribute", .unknown⟩,
   ⟨"STRUCT", "record", "record", .selfSwitch⟩,
   ⟨"UNION", "union", "union", .selfSwitch⟩,
   ⟨"UNION_FIELD", "field", "callback", .unknown⟩]
@@ -192,18 +192,11 @@ def ignoredPairs : List (String × String) :=
    ("instance-parameter", "skip")]
 
 /-- The offence of the UNCHANGED tree:
-    * <member introspectable="0">: start_member neither runs introspectable_prelude nor reads the attribute.
-    (`<property deprecated="1">` was one until start_property learnt to read it.) -/
-def knownUnfetched : List (String × String × String) :=
-  [("member", "start_member", "introspectable")]
-
-/-- a value that reaches the final `else` of a comparison chain ON PURPOSE: start_glib_signal tests
-    LAST, then FIRST, and treats everything else as RUN_CLEANUP — "cleanup" is the third value -/
-def elseBranchByDesign : List (String × String × String × String) :=
-  [("glib:signal", "start_glib_signal", "when", "cleanup")]
-
-/-- The offence of the UNCHANGED tree:
-    * when="must-collect" (ast.SIGNAL_MUST_COLLECT, written verbatim from the runtime dump) silently becomes RUN_CLEANUP. -/
+    * when="must-collect" (ast.SIGNAL_MUST_COLLECT, written verbatim from the runtime dump, which reports it for a
+      signal that runs in none of the three phases) matches none of the comparisons of start_glib_signal (LAST,
+      FIRST, CLEANUP): no run flag is set, validate_signal_blob demands exactly one, and the compiler dies
+      validating its own output.  (Until start_glib_signal got an explicit CLEANUP test the final `else` silently
+      made it RUN_CLEANUP; there is no value left that reaches an `else` on purpose.) -/
 def knownValueOffences : List (String × String × String × String) :=
   [("glib:signal", "start_glib_signal", "when", "must-collect")]
 
@@ -225,6 +218,7 @@ def cType : Nat := 6249082981
 def cArray : Nat := 1518043554169
 def cVarargs : Nat := 105378785178838899
 def cAttribute : Nat := 6520092115822118794341
+def cALIAS : Nat := 1379964371283
 def silentN : List Nat := [6552803162866945713253]
 def startVisitN : Visit Nat := ⟨1, 1457407480404, false⟩
 def passthroughByDesignN : List Nat :=
@@ -248,16 +242,19 @@ def contextsN : List (Visit Nat) :=
   105017356905160056178662001732, true⟩, ⟨1539366546532, 412613401401179494360108100, true⟩, ⟨1518043554169, 5710106693, false⟩, ⟨105378785178838899,
   5710106693, false⟩, ⟨6795423601016620475762, 28427633244319211528097692378703580525512018, true⟩]
 def knownElementOffencesN : List (Offence Nat) :=
-  [⟨1379964371283, 1517942301043, 6520092115822118794341, .unknown⟩, ⟨373096600388436, 407254762222180, 407254762222180, .selfSwitch⟩, ⟨1465897275214,
-  1603875204974, 1603875204974, .selfSwitch⟩, ⟨412613401401179494360108100, 1539366546532, 25607868168968168299, .unknown⟩]
+  [⟨373096600388436, 407254762222180, 407254762222180, .selfSwitch⟩,
+   ⟨1465897275214, 1603875204974, 1603875204974, .selfSwitch⟩,
+   ⟨412613401401179494360108100, 1539366546532, 25607868168968168299, .unknown⟩]
 def writerOnlyOffencesN : List (Offence Nat) :=
   [⟨6074623012703112872773, 6667233708592636978021, 407254762222180, .unknown⟩, ⟨6074623012703112872773, 6667233708592636978021, 1603875204974,
   .unknown⟩, ⟨1709854371026623682704719365642996804, 1539366546532, 25607868168968168299, .unknown⟩]
 def allOffencesN : List (Offence Nat) :=
-  [⟨1379964371283, 1517942301043, 6520092115822118794341, .unknown⟩, ⟨6074623012703112872773, 6667233708592636978021, 407254762222180, .unknown⟩,
-  ⟨6074623012703112872773, 6667233708592636978021, 1603875204974, .unknown⟩, ⟨373096600388436, 407254762222180, 407254762222180, .selfSwitch⟩,
-  ⟨1465897275214, 1603875204974, 1603875204974, .selfSwitch⟩, ⟨1709854371026623682704719365642996804, 1539366546532, 25607868168968168299, .unknown⟩,
-  ⟨412613401401179494360108100, 1539366546532, 25607868168968168299, .unknown⟩]
+  [⟨6074623012703112872773, 6667233708592636978021, 407254762222180, .unknown⟩,
+   ⟨6074623012703112872773, 6667233708592636978021, 1603875204974, .unknown⟩,
+   ⟨373096600388436, 407254762222180, 407254762222180, .selfSwitch⟩,
+   ⟨1465897275214, 1603875204974, 1603875204974, .selfSwitch⟩,
+   ⟨1709854371026623682704719365642996804, 1539366546532, 25607868168968168299, .unknown⟩,
+   ⟨412613401401179494360108100, 1539366546532, 25607868168968168299, .unknown⟩]
 def handlersN : List (Nat × Nat) :=
   [(1749146821634364818813561, 122988712444455282721586500523022917530233), (1683217206633762707562868, 122988712444455282655656885522420806279540),
   (101733839892997221, 7330698516634421508267538862400613), (6758528709918317437797, 480424657986153448057121205577138135909), (103689871060723557,
@@ -290,9 +287,6 @@ def ignoredPairsN : List (Nat × Nat) :=
   (31485119747228842716540428525926096580142450, 26476790205501038956), (31485119747228842716540428525926096580142450, 1595101114469),
   (31485119747228842716540428525926096580142450, 100042842666529381), (31485119747228842716540428525926096580142450, 100316638258294649),
   (31485119747228842716540428525926096580142450, 6231386480)]
-def knownUnfetchedN : List (Nat × Nat × Nat) := [(401757371000178, 114959634219657521553215743346, 7330701003399816966431809153952869)]
-def elseBranchByDesignN : List (Nat × Nat × Nat × Nat) :=
-  [(434516328808026195815719276, 126399454549389185839645904802390289047916, 6298297710, 100042799414408560)]
 def knownValueOffencesN : List (Nat × Nat × Nat × Nat) :=
   [(434516328808026195815719276, 126399454549389185839645904802390289047916, 6298297710, 113104018120924284523360117620)]
 def writerOnlyValueOffencesN : List (Nat × Nat × Nat × Nat) :=
@@ -301,7 +295,6 @@ def writerOnlyValueOffencesN : List (Nat × Nat × Nat × Nat) :=
 
 /-- all of them, in the order the walk meets them -/
 def allOffences : List (Offence String) := [
-  ⟨"ALIAS", "alias", "attribute", .unknown⟩,
   ⟨"INTERFACE", "interface", "record", .unknown⟩,
   ⟨"INTERFACE", "interface", "union", .unknown⟩,
   ⟨"STRUCT", "record", "record", .selfSwitch⟩,
@@ -313,7 +306,7 @@ def allOffences : List (Offence String) := [
 theorem C15_constants_coded :
     cPASSTHROUGH = code "PASSTHROUGH" ∧ cInstanceParameter = code "start_instance_parameter"
     ∧ cZero = code "0" ∧ cOne = code "1" ∧ cType = code "type" ∧ cArray = code "array" ∧ cVarargs = code "varargs"
-    ∧ cAttribute = code "attribute" ∧ silentN = [code "c:include"] ∧ startVisitN = codeVisit startVisit
+    ∧ cAttribute = code "attribute" ∧ cALIAS = code "ALIAS" ∧ silentN = [code "c:include"] ∧ startVisitN = codeVisit startVisit
     ∧ passthroughByDesignN = passthroughByDesign.map code
     ∧ contextsN = contexts.map codeVisit
     ∧ knownElementOffencesN = knownElementOffences.map codeOffence
@@ -321,8 +314,7 @@ theorem C15_constants_coded :
     ∧ allOffencesN = allOffences.map codeOffence
     ∧ handlersN = handlers.map code2
     ∧ ignoredAttrsN = ignoredAttrs.map code ∧ ignoredPairsN = ignoredPairs.map code2
-    ∧ knownUnfetchedN = knownUnfetched.map code3
-    ∧ elseBranchByDesignN = elseBranchByDesign.map code4 ∧ knownValueOffencesN = knownValueOffences.map code4
+    ∧ knownValueOffencesN = knownValueOffences.map code4
     ∧ writerOnlyValueOffencesN = writerOnlyValueOffences.map code4 := by
   decide +kernel
 
@@ -372,13 +364,16 @@ theorem C15_elements_partial :
 
 /-- the by-name passthrough list written above is the one in girparser.c, and apart from it the only
     handled elements that end in PASSTHROUGH are <instance-parameter> (read, then its subtree skipped: an
-    instance parameter has no argument blob) and elements skipped by introspectable_prelude -/
+    instance parameter has no argument blob), <attribute> inside <alias> (an alias is not stored in the
+    typelib, neither are its attributes) and elements skipped by introspectable_prelude or by the hand-written
+    test of start_member (which is the only such test: `Gen.c15COwnIntroTest`) -/
 theorem C15_passthrough_list :
     Gen.c15CPassthroughByName = passthroughByDesign
     ∧ Gen.c15CSilentPrefixes = ["c:"]
     ∧ (Gen.c15CAcceptG.all fun g => g.2.all fun r => r.2.2.2.2.2.1 != cPASSTHROUGH || passthroughByDesignN.contains r.1
-        || r.2.1 == cInstanceParameter) = true :=
-  ⟨rfl, rfl, by decide +kernel⟩
+        || r.2.1 == cInstanceParameter || (g.1 == cALIAS && r.1 == cAttribute)) = true
+    ∧ Gen.c15COwnIntroTest = ["start_member"] :=
+  ⟨rfl, rfl, by decide +kernel, rfl⟩
 
 /-- no element that can be skipped or unknown is ever written inside <type>/<array> or <attribute>: the
     single `prev_state` slot that STATE_TYPE and STATE_ATTRIBUTE return through is never overwritten
@@ -398,40 +393,34 @@ def unfetchedNotByDesign : List (Nat × Nat × Nat) :=
   (unfetchedG Gen.c15PyAttrsG Gen.c15CFetchedG handlersN).filter fun x =>
     !(ignoredAttrsN.contains x.2.2 || ignoredPairsN.contains (x.1, x.2.2))
 
-def C15_attributes_full : Prop := unfetchedNotByDesign = []
-
 /-- Every attribute GIRWriter can put on an element the parser handles is fetched (find_attribute) by the
-    start_* function that handles that element, or is in the explicit ignored-by-design lists, EXCEPT
-    exactly the listed pair. -/
-theorem C15_attributes_partial : unfetchedNotByDesign = knownUnfetchedN := by
+    start_* function that handles that element, or is in the explicit ignored-by-design lists.  No exception:
+    `<property deprecated>` (start_property) and `<member introspectable>` (start_member) were the last two. -/
+theorem C15_attributes : unfetchedNotByDesign = [] := by
   decide +kernel
-
-theorem C15_attributes_counterexample : ¬ C15_attributes_full := by
-  unfold C15_attributes_full; rw [C15_attributes_partial]; decide
 
 /-! ### C15_values -/
 
-def offValuesNotByDesign : List (Nat × Nat × Nat × Nat) :=
-  (offValuesG Gen.c15PyValuesG Gen.c15PyDynamicG Gen.c15CLiteralsG cZero cOne handlersN).filter fun x =>
-    !elseBranchByDesignN.contains x
+def offValuesN : List (Nat × Nat × Nat × Nat) :=
+  offValuesG Gen.c15PyValuesG Gen.c15PyDynamicG Gen.c15CLiteralsG cZero cOne handlersN
 
-def C15_values_full : Prop := offValuesNotByDesign = []
+def C15_values_full : Prop := offValuesN = []
 
 /-- Every enumerated attribute value GIRWriter can produce (string constants in girwriter.py and the
     PARAM_TRANSFER_*/PARAM_DIRECTION_*/PARAM_SCOPE_*/SIGNAL_* constants of ast.py, minus what an enclosing
     `!=` test excludes) is one of the literals the handling start_* function compares that attribute with —
-    no silent default — EXCEPT exactly the listed value, and the one no scanner path produces. -/
-theorem C15_values_partial : offValuesNotByDesign = knownValueOffencesN ++ writerOnlyValueOffencesN := by
+    no value reaches a default — EXCEPT exactly the listed value, and the one no scanner path produces. -/
+theorem C15_values_partial : offValuesN = knownValueOffencesN ++ writerOnlyValueOffencesN := by
   decide +kernel
 
 theorem C15_values_counterexample : ¬ C15_values_full := by
   unfold C15_values_full; rw [C15_values_partial]; decide
 
 /-- … and, against the written contract docs/gir-1.2.rnc: every such value is one the schema allows for
-    that attribute, except when="must-collect". -/
+    that attribute, except when="must-collect" (the schema lists first / last / cleanup only). -/
 theorem C15_values_in_schema :
     notInSchemaG Gen.c15PyValuesG Gen.c15PyDynamicG Gen.c15RncValuesG
-      = (knownValueOffencesN.take 1).map (fun x => (x.1, x.2.2.1, x.2.2.2)) := by
+      = knownValueOffencesN.map (fun x => (x.1, x.2.2.1, x.2.2.2)) := by
   decide +kernel
 
 /-! ### C15_passthrough_balanced -/
@@ -444,21 +433,22 @@ theorem C15_no_prelude_to_passthrough :
   decide +kernel
 
 /-- For EVERY parser context outside PASSTHROUGH, every element the parser decides to skip there
-    (non-introspectable, shadowed, passthrough by name, or unknown — whatever makes `startEv` enter
+    (non-introspectable — by introspectable_prelude or by start_member's own test —, shadowed, passthrough by
+    name, or unknown — whatever makes `startEv` enter
     PASSTHROUGH) and EVERY well-nested content of that element: after the matching end tag the parser is
     exactly where it was — same state, node stack, embedded state, type depth, and nothing in the subtree
     was acted on (the log only has the entry of the skipped element itself).  The counter is back to 0 and
     the only trace is `prev_state = PASSTHROUGH`.  A skipped element removes exactly its own subtree.
     (`hrow`: the row of the table that takes the element, if it runs introspectable_prelude, does not name
     PASSTHROUGH as the state of the introspectable element — C15_no_prelude_to_passthrough.) -/
-theorem C15_passthrough_balanced (c c1 : Ctx) (n : String) (hidden : Bool) (body : List Ev)
+theorem C15_passthrough_balanced (c c1 : Ctx) (n : String) (hidden intro0 : Bool) (body : List Ev)
     (hb : WN body) (hs : c.state ≠ "PASSTHROUGH")
     (hrow : ∀ r, lookup c.state n (!c.stack.isEmpty) = some r → r.prelude = true → r.target ≠ "PASSTHROUGH")
-    (h1 : startEv c n hidden = .ok c1) (hp : c1.state = "PASSTHROUGH") :
+    (h1 : startEv c n hidden intro0 = .ok c1) (hp : c1.state = "PASSTHROUGH") :
     ∃ entry, c1.log = c.log ++ [entry] ∧
-      run c (Ev.start n hidden :: (body ++ [Ev.stop n]))
+      run c (Ev.start n hidden intro0 :: (body ++ [Ev.stop n]))
         = .ok { c with prev := "PASSTHROUGH", depth := 0, log := c.log ++ [entry] } := by
-  obtain ⟨entry, rfl⟩ := startEv_enters_passthrough c c1 n hidden hs hrow h1 hp
+  obtain ⟨entry, rfl⟩ := startEv_enters_passthrough c c1 n hidden intro0 hs hrow h1 hp
   refine ⟨entry, rfl, ?_⟩
   -- start
   simp only [run, step, h1]
@@ -473,15 +463,15 @@ theorem C15_passthrough_balanced (c c1 : Ctx) (n : String) (hidden : Bool) (body
   simp [stateSwitch, hne, hs]
 
 /-- … so whatever follows is parsed as if the skipped element had not been there. -/
-theorem C15_skipped_subtree_invisible (c c1 : Ctx) (n : String) (hidden : Bool) (body rest : List Ev)
+theorem C15_skipped_subtree_invisible (c c1 : Ctx) (n : String) (hidden intro0 : Bool) (body rest : List Ev)
     (hb : WN body) (hs : c.state ≠ "PASSTHROUGH")
     (hrow : ∀ r, lookup c.state n (!c.stack.isEmpty) = some r → r.prelude = true → r.target ≠ "PASSTHROUGH")
-    (h1 : startEv c n hidden = .ok c1) (hp : c1.state = "PASSTHROUGH") :
-    ∃ entry, run c (Ev.start n hidden :: (body ++ Ev.stop n :: rest))
+    (h1 : startEv c n hidden intro0 = .ok c1) (hp : c1.state = "PASSTHROUGH") :
+    ∃ entry, run c (Ev.start n hidden intro0 :: (body ++ Ev.stop n :: rest))
         = run { c with prev := "PASSTHROUGH", depth := 0, log := c.log ++ [entry] } rest := by
-  obtain ⟨entry, _, h⟩ := C15_passthrough_balanced c c1 n hidden body hb hs hrow h1 hp
+  obtain ⟨entry, _, h⟩ := C15_passthrough_balanced c c1 n hidden intro0 body hb hs hrow h1 hp
   refine ⟨entry, ?_⟩
-  have : Ev.start n hidden :: (body ++ Ev.stop n :: rest) = (Ev.start n hidden :: (body ++ [Ev.stop n])) ++ rest := by
+  have : Ev.start n hidden intro0 :: (body ++ Ev.stop n :: rest) = (Ev.start n hidden intro0 :: (body ++ [Ev.stop n])) ++ rest := by
     simp
   rw [this, run_append_ok h]
 
@@ -492,17 +482,34 @@ theorem C15_passthrough_inert (c : Ctx) (evs : List Ev) (hw : WN evs) (hs : c.st
 
 /-- a hidden element (introspectable="0" / shadowed-by) whose handler runs introspectable_prelude always
     enters PASSTHROUGH, whatever state the handler would have switched to -/
-theorem C15_hidden_enters_passthrough (c : Ctx) (n : String) (r : Row) (hs : c.state ≠ "PASSTHROUGH")
+theorem C15_hidden_enters_passthrough (c : Ctx) (n : String) (intro0 : Bool) (r : Row) (hs : c.state ≠ "PASSTHROUGH")
     (hl : lookup c.state n (!c.stack.isEmpty) = some r) (hpre : r.prelude = true) :
-    startEv c n true
+    startEv c n true intro0
       = .ok { c with prev := c.state, state := "PASSTHROUGH", depth := 1, log := c.log ++ ["~" ++ n] } := by
   simp [startEv, hs, hl, hpre, stateSwitch]
 
+/-- <member introspectable="0">: a handler with the hand-written test (start_member; it does NOT run
+    introspectable_prelude, so `hrow` has nothing to say about its row) enters PASSTHROUGH exactly like a
+    hidden element of a prelude handler — C15_passthrough_balanced then removes the member and its subtree -/
+theorem C15_own_test_enters_passthrough (c : Ctx) (n : String) (hidden : Bool) (r : Row) (hs : c.state ≠ "PASSTHROUGH")
+    (hl : lookup c.state n (!c.stack.isEmpty) = some r) (hpre : r.prelude = false)
+    (hown : r.handler ∈ Gen.c15COwnIntroTest) :
+    startEv c n hidden true
+      = .ok { c with prev := c.state, state := "PASSTHROUGH", depth := 1, log := c.log ++ ["~" ++ n] } := by
+  simp [startEv, hs, hl, hpre, hown, stateSwitch]
+
+/-- … and without introspectable="0" such a handler never enters PASSTHROUGH unless its row says so -/
+theorem C15_own_test_only_on_intro0 (c c1 : Ctx) (n : String) (hidden : Bool) (r : Row) (hs : c.state ≠ "PASSTHROUGH")
+    (hl : lookup c.state n (!c.stack.isEmpty) = some r) (hpre : r.prelude = false) (hsw : r.switch = false)
+    (h1 : startEv c n hidden false = .ok c1) : c1.state = c.state := by
+  simp only [startEv, if_neg hs, hl, hpre, hsw, Bool.and_false, Bool.false_eq_true, if_false, pure, Except.pure] at h1
+  split at h1 <;> (cases h1; rfl)
+
 /-- an element no handler takes in the current state is skipped the same way (with a warning unless its
     name has a silent prefix) -/
-theorem C15_unknown_enters_passthrough (c : Ctx) (n : String) (hidden : Bool) (hs : c.state ≠ "PASSTHROUGH")
+theorem C15_unknown_enters_passthrough (c : Ctx) (n : String) (hidden intro0 : Bool) (hs : c.state ≠ "PASSTHROUGH")
     (hl : lookup c.state n (!c.stack.isEmpty) = none) :
-    ∃ entry, startEv c n hidden
+    ∃ entry, startEv c n hidden intro0
       = .ok { c with prev := c.state, state := "PASSTHROUGH", depth := 1, log := c.log ++ [entry] } := by
   refine ⟨if silentPrefix n then "." ++ n else "?" ++ n ++ "@" ++ c.state, ?_⟩
   simp [startEv, hs, hl, stateSwitch]
@@ -511,15 +518,15 @@ theorem C15_unknown_enters_passthrough (c : Ctx) (n : String) (hidden : Bool) (h
 
 /-- a well-nested body: <parameters><parameter><doc/><type/></parameter></parameters> -/
 def sampleBody : List Ev :=
-  [.start "parameters" false, .start "parameter" false, .start "doc" false, .stop "doc", .start "type" false,
+  [.start "parameters" false false, .start "parameter" false false, .start "doc" false false, .stop "doc", .start "type" false false,
    .stop "type", .stop "parameter", .stop "parameters"]
 
 example : WN sampleBody := by
-  have h1 : WN [Ev.start "doc" false, Ev.stop "doc", Ev.start "type" false, Ev.stop "type"] :=
-    WN.node "doc" false [] _ WN.nil (WN.node "type" false [] [] WN.nil WN.nil)
-  have h2 : WN [Ev.start "parameter" false, Ev.start "doc" false, Ev.stop "doc", Ev.start "type" false,
-      Ev.stop "type", Ev.stop "parameter"] := WN.node "parameter" false _ [] h1 WN.nil
-  exact WN.node "parameters" false _ [] h2 WN.nil
+  have h1 : WN [Ev.start "doc" false false, Ev.stop "doc", Ev.start "type" false false, Ev.stop "type"] :=
+    WN.node "doc" false false [] _ WN.nil (WN.node "type" false false [] [] WN.nil WN.nil)
+  have h2 : WN [Ev.start "parameter" false false, Ev.start "doc" false false, Ev.stop "doc", Ev.start "type" false false,
+      Ev.stop "type", Ev.stop "parameter"] := WN.node "parameter" false false _ [] h1 WN.nil
+  exact WN.node "parameters" false false _ [] h2 WN.nil
 
 /- The examples below are evaluated by the kernel on the string tables, which is slow; they stay in
    STATE_START, whose rows come first in the table. -/
@@ -529,18 +536,18 @@ example : WN sampleBody := by
 example : (startEv Ctx.init "doc" false).map (·.state) = .ok "PASSTHROUGH" := by decide +kernel
 example : (lookup Ctx.init.state "doc" (!Ctx.init.stack.isEmpty)).map (·.prelude) = some false := by decide +kernel
 -- … and the conclusion computes: whatever is inside, only the entry of the skipped element is logged
-example : run Ctx.init (Ev.start "doc" false :: (sampleBody ++ [Ev.stop "doc"]))
+example : run Ctx.init (Ev.start "doc" false false :: (sampleBody ++ [Ev.stop "doc"]))
     = .ok { Ctx.init with prev := "PASSTHROUGH", log := ["+doc"] } := by decide +kernel
 -- an element that is taken is consumed: the states really differ
-example : (run Ctx.init [.start "repository" false, .stop "repository"]).map (fun c => (c.state, c.log))
+example : (run Ctx.init [.start "repository" false false, .stop "repository"]).map (fun c => (c.state, c.log))
     = .ok ("END", ["+repository"]) := by decide +kernel
 -- the defect behind the selfSwitch offences: state_switch to the current state trips its assertion
 example : (stateSwitch { Ctx.init with state := "STRUCT" } "STRUCT").toOption = none := by decide +kernel
 -- the tables are not empty
 example : 30 ≤ Gen.c15PyChildrenG.length ∧ 30 ≤ Gen.c15CAcceptG.length ∧ 30 ≤ handlers.length
     ∧ 200 ≤ Gen.c15PyChildren.length ∧ 400 ≤ Gen.c15CAccept.length := by decide +kernel
--- the full statements are refuted by concrete table entries, e.g. the first offence is <alias><attribute/>
-example : offElementsN.head? = some ⟨code "ALIAS", code "alias", code "attribute", .unknown⟩ := by
+-- the full element statement is refuted by concrete table entries, e.g. the first offence met is a <record> in an <interface>
+example : offElementsN.head? = some ⟨code "INTERFACE", code "interface", code "record", .unknown⟩ := by
   rw [C15_walk.2.1]; decide +kernel
 
 end GIVerif.GirConsume
